@@ -18,15 +18,26 @@ RULE = ("triples of diagrams with 0..N points (N=60 quick, 300 thorough; sizes 0
         "every run have 100+ points per diagram — one independent, one related), coordinates from lattice/half/dyadic/decimal/"
         "uniform modes with duplicates and diagonal points, one power-of-two scale per triple; one triple in seven is 'large "
         "offset, tiny spread' (a diagram and two successive perturbations by delta, all translated by T = 1e3..1e6 feature "
-        "sizes, delta/T ~ 1e-8); every law of the statement is evaluated for both distances on each triple; non-trivial = at "
+        "sizes, delta/T ~ 1e-8); every law of the statement is evaluated for both distances on each triple (an empty diagram of a triple is "
+        "handed over in one of the five accepted forms, `vs_empty` uses all five; a quarter of the d(Y,X) evaluations get nested lists); non-trivial = at "
         "least two of the three diagrams have >= 3 points; distinct by digest of the triple.  Certified pairs: related and "
         "independent pairs of exactly m+n points, (6,6) (12,10) (30,30) (80,60) x3 and one (120,110) quick; x6 plus (150,150) "
         "(150,10) thorough — each for BOTH distances")
-ASSUMPTIONS = ["laws on the real code are compared with tolerance 1e-9*scale (bottleneck) / 1e-9*scale*(n+1) (Wasserstein), scale = largest "
-               "|coordinate| (not floored at 1); the Wasserstein cost matrix is np.sqrt of summed squared coordinate differences (since /repo fix "
+ASSUMPTIONS = ["domain of the model-level laws (Props/C07Model.lean, `ProperDgm`): ALL bottleneck laws model_bn_* and the Wasserstein laws "
+               "model_ws_nonneg, model_ws_reorder_zero, model_ws_triangle (for the middle diagram) and model_bn_le_ws require birth <= death "
+               "for every finite point.  The restriction is necessary and the code does not enforce it: on /repo bottleneck([[1,0]],[[1,0]]) "
+               "= -0.5 and wasserstein([[1,0]],[[1,0]]) = -1.414 (a point below the diagonal has a negative diagonal cost).  Every diagram "
+               "generated here has birth <= death; points below the diagonal are outside the property",
+               "laws on the real code are compared with tolerance min(1e-9*scale*k, 1e-9*|reference value| + 32*eps*scale*k), k = 1 (bottleneck) / "
+               "n+1 (Wasserstein), scale = largest |coordinate| (not floored at 1) — relative to the VALUE, with a rounding floor relative to the "
+               "coordinates, so that 'large offset, tiny spread' triples (distances ~1e-8 of the offset) are checked to ~1e-6 of the value and "
+               "not to 10-100% of it; the Wasserstein cost matrix is np.sqrt of summed squared coordinate differences (since /repo fix "
                "6c9bac1 — before it, sklearn's expanded formula needed 1e-6 and broke translation invariance at large offsets)",
-               "certified pairs: bottleneck value compared exactly (lattice/half/dyadic inputs) with the optimum certified by C01's cert.opt; "
-               "Wasserstein value within 1e-9*scale*rows of the optimum of the model's matrix certified by C02's cert.dual (exact rational dual "
+               "a law whose evaluation RAISES fails: the statement covers every diagram, the empty one included, in each form both functions "
+               "accept on the unchanged tree (np.zeros((0,2)), [], np.array([]), [[]], np.array([[]])) — `vs_empty` is evaluated against all five, both orders",
+               "certified pairs: bottleneck value within 1e-9*scale of the optimum certified by C01's cert.opt (bit-exact on these lattice/half/dyadic "
+               "inputs on the unchanged tree; a last-bit difference is reported as a correspondence break, not as a failing input); "
+               "Wasserstein value within min(1e-9*scale*rows, 1e-9*|value| + 32 eps*scale*rows) of the optimum of the model's matrix certified by C02's cert.dual (exact rational dual "
                "potentials verified in Lean)",
                "the theorems are about the specification values; that the code computes them is C01/C02"]
 # the theorems that carry clauses of the property statement: every law, for the specification values (C07.lean) and for what
@@ -46,8 +57,114 @@ PROP_FILES = ["PersimVerif/Props/C07.lean", "PersimVerif/Props/C07Model.lean", "
               "PersimVerif/Lemmas/PermEquiv.lean", "PersimVerif/Lemmas/MatchingReindex.lean"]
 
 
-def A(d):
+def A(d, eform=0):
+    """float64 (n,2) array; an EMPTY diagram in any of the forms both functions accept (eform 0..4):
+    np.zeros((0,2)), [], np.array([]), [[]], np.array([[]])"""
+    if len(d) == 0:
+        return EMPTY_FORMS[eform % len(EMPTY_FORMS)][1]()
     return np.array(d, dtype=float).reshape(-1, 2)
+
+
+EMPTY_FORMS = [("np.zeros((0,2))", lambda: np.zeros((0, 2))), ("[]", lambda: []), ("np.array([])", lambda: np.array([])),
+               ("[[]]", lambda: [[]]), ("np.array([[]])", lambda: np.array([[]]))]
+TOL = 1e-9
+ROUND = 32 * 2.0 ** -52
+
+
+def law_tol(ref, scale, k):
+    """tolerance of one law comparison whose reference value is `ref`: 1e-9 relative to the VALUE plus a rounding-level term
+    32*eps*scale*k (scale = largest |coordinate| of the triple, k = 1 for bottleneck, number of points + 1 for the
+    Wasserstein sum), never more than the former 1e-9*scale*k.  On 'large offset, tiny spread' triples (distances ~ 1e-8 of
+    the offset) this is ~1e-6 of the value; 1e-9*scale*k was 10-100% of it, which let 'returns 0.0' pass every law."""
+    ref = abs(float(ref))
+    if not math.isfinite(ref):
+        return TOL * scale * k
+    return min(TOL * scale * k, TOL * ref + ROUND * scale * k)
+
+
+LAWS = ("symmetric", "nonneg_finite", "triangle", "reorder_zero", "diagonal_points_ignored", "translate_along_diagonal",
+        "scales_linearly", "vs_empty", "bottleneck_le_wasserstein")
+
+
+def draw_ingredients(r, X, Y, Z, scale):
+    """the random choices of one law evaluation — stored in the violation record so that `replay` re-evaluates the same laws"""
+    return {"perm_seed": r.randint(0, 2 ** 31 - 1), "diag": [r.uniform(-1, 1) * scale, 0.0, scale],
+            "t": r.choice([1.0, -3.0, 0.125]) * scale,
+            "lam": r.choice([0.5, 4.0, 3.7, 1e-3, 1e-7, 2.0 ** -30, 2.0 ** 20]),
+            "eforms": [r.randint(0, 4) for _ in range(3)], "aslist": r.random() < 0.25}
+
+
+def eval_laws(name, X, Y, Z, ing, ctx=None, out=None):
+    """every law of the statement for one distance (`name` = 'bn' | 'ws') on the real code for the triple X, Y, Z (lists of
+    points) with the recorded random ingredients `ing` -> list of the laws that FAIL (a law whose evaluation raises fails:
+    the statement covers every diagram, the empty one in any accepted form included).  Used by `run` and by `replay`."""
+    bnf = common.pm("bottleneck").bottleneck
+    f = bnf if name == "bn" else common.pm("wasserstein").wasserstein
+    ef = ing.get("eforms", [0, 0, 0])
+    ax, ay, az = A(X, ef[0]), A(Y, ef[1]), A(Z, ef[2])
+    fx, fy = A(X), A(Y)                        # float64 (n,2) arrays for the arithmetic on the inputs
+    scale = max(common.maxabs(X), common.maxabs(Y), common.maxabs(Z), 1e-300)
+    k = 1 if name == "bn" else len(X) + len(Y) + len(Z) + 1
+    tol = lambda ref: law_tol(ref, scale, k)
+    bad, notes = [], {}
+
+    def law(what, thunk):
+        try:
+            c = bool(thunk())
+        except Exception as e:              # noqa: a raise is a failure of the law on this input
+            c = False
+            notes[what] = "raised %s: %s" % (type(e).__name__, str(e)[:200])
+        if ctx is not None:
+            ctx.test(name + "." + what, c)
+        if not c:
+            bad.append(what)
+
+    try:
+        dxy, dyz, dxz = float(f(ax, ay)), float(f(ay, az)), float(f(ax, az))
+        dyx = float(f(ay.tolist(), ax.tolist())) if ing.get("aslist") and len(X) and len(Y) else float(f(ay, ax))
+    except Exception as e:
+        notes["distances"] = "raised %s: %s" % (type(e).__name__, str(e)[:200])
+        if out is not None:
+            out.update(notes)
+        if ctx is not None:
+            ctx.test(name + ".returns", False)
+        return ["returns_a_value"]
+    if out is not None:
+        out.update({"d(X,Y)": dxy, "d(Y,X)": dyx, "d(Y,Z)": dyz, "d(X,Z)": dxz})
+    law("symmetric", lambda: abs(dxy - dyx) <= tol(dxy))
+    law("nonneg_finite", lambda: dxy >= 0 and dyz >= 0 and dxz >= 0 and all(map(math.isfinite, (dxy, dyz, dxz))))
+    law("triangle", lambda: dxz <= dxy + dyz + tol(dxy + dyz))
+    if len(X):
+        perm = fx[np.random.RandomState(ing["perm_seed"]).permutation(len(X))]
+        law("reorder_zero", lambda: f(fx, perm) <= tol(0.0))
+    diag = np.array([[t, t] for t in ing["diag"]])
+    law("diagonal_points_ignored", lambda: abs(f(np.vstack([fx, diag]), ay) - dxy) <= tol(dxy)
+        and abs(f(ax, np.vstack([fy, diag[:1]])) - dxy) <= tol(dxy))
+    t = ing["t"]
+    law("translate_along_diagonal", lambda: abs(f(fx + t, fy + t) - dxy) <= tol(dxy) * 4)
+    lam = ing["lam"]
+    law("scales_linearly", lambda: abs(f(fx * lam, fy * lam) - lam * dxy) <= tol(dxy) * lam)
+    pers = fx[:, 1] - fx[:, 0] if len(X) else np.zeros(0)
+    want = (pers.max() / 2 if len(X) else 0.0) if name == "bn" else pers.sum() / math.sqrt(2)
+
+    def vs_empty():                            # against the empty diagram in EVERY accepted form, both orders
+        for n_form, (label, mk) in enumerate(EMPTY_FORMS):
+            g_, w_ = fx, want
+            if n_form and len(X) > 25:          # the other ways of writing "no points": on the first 25 points (cost)
+                g_ = fx[:25]
+                p_ = g_[:, 1] - g_[:, 0]
+                w_ = p_.max() / 2 if name == "bn" else p_.sum() / math.sqrt(2)
+            for v in (f(g_, mk()), f(mk(), g_)):
+                if not abs(v - w_) <= tol(w_):
+                    notes["vs_empty"] = "against %s: %r, expected %r" % (label, float(v), float(w_))
+                    return False
+        return True
+    law("vs_empty", vs_empty)
+    if name == "ws":
+        law("bottleneck_le_wasserstein", lambda: bnf(ax, ay) <= dxy + tol(dxy))
+    if out is not None:
+        out.update(notes)
+    return bad
 
 
 def gen_dgm(ctx, nmax, mode=None, exact_n=False):
@@ -136,38 +253,18 @@ def run(ctx):
             nontriv = sum(len(d) >= 3 for d in (X, Y, Z)) >= 2
             ctx.case({"X": X[:4], "Y": Y[:4], "Z": Z[:4], "sizes": [len(X), len(Y), len(Z)]}, nontriv, sample_every=13)
             ctx.count("size<=%d" % (10 ** len(str(max(len(X), len(Y), len(Z), 1)))))
-            ax, ay, az = A(X), A(Y), A(Z)
             scale = max(common.maxabs(X), common.maxabs(Y), common.maxabs(Z), 1e-300)
-            nn = len(X) + len(Y) + len(Z) + 1
-            for name, f, tol in (("bn", bn, 1e-9 * scale), ("ws", ws, 1e-9 * scale * nn)):
-                bad = []
-                dxy, dyx, dyz, dxz = f(ax, ay), f(ay, ax), f(ay, az), f(ax, az)
-                ok = lambda c, what: (ctx.test(name + "." + what, c), bad.append(what) if not c else None)
-                ok(abs(dxy - dyx) <= tol, "symmetric")
-                ok(dxy >= 0 and dyz >= 0 and dxz >= 0 and all(map(math.isfinite, (dxy, dyz, dxz))), "nonneg_finite")
-                ok(dxz <= dxy + dyz + tol, "triangle")
-                if len(X):
-                    perm = ax[np.random.RandomState(r.randint(0, 2 ** 31 - 1)).permutation(len(X))]
-                    ok(f(ax, perm) <= tol, "reorder_zero")
-                diag = np.array([[t, t] for t in (r.uniform(-1, 1) * scale, 0.0, scale)])
-                ok(abs(f(np.vstack([ax, diag]), ay) - dxy) <= tol and abs(f(ax, np.vstack([ay, diag[:1]])) - dxy) <= tol,
-                   "diagonal_points_ignored")
-                t = r.choice([1.0, -3.0, 0.125]) * scale
-                ok(abs(f(ax + t, ay + t) - dxy) <= tol * 4, "translate_along_diagonal")
-                lam = r.choice([0.5, 4.0, 3.7, 1e-3, 1e-7, 2.0 ** -30, 2.0 ** 20])
-                ok(abs(f(ax * lam, ay * lam) - lam * dxy) <= tol * lam, "scales_linearly")
-                empty = np.zeros((0, 2))
-                pers = ax[:, 1] - ax[:, 0] if len(X) else np.zeros(0)
-                want = (pers.max() / 2 if len(X) else 0.0) if name == "bn" else pers.sum() / math.sqrt(2)
-                ok(abs(f(ax, empty) - want) <= tol and abs(f(empty, ax) - want) <= tol, "vs_empty")
-                if name == "ws":
-                    ok(bn(ax, ay) <= dxy + tol, "bottleneck_le_wasserstein")
+            for name in ("bn", "ws"):
+                ing = draw_ingredients(r, X, Y, Z, scale)
+                det = {}
+                bad = eval_laws(name, X, Y, Z, ing, ctx, det)
                 if bad:
-                    ctx.violation("%s: law(s) %s fail on the real code" % ("bottleneck" if name == "bn" else "wasserstein", bad),
-                                  {"X": X, "Y": Y, "Z": Z, "t": t, "lam": lam, "fn": name, "laws": bad})
+                    ctx.violation("%s: law(s) %s fail on the real code (%s)" % ("bottleneck" if name == "bn" else "wasserstein", bad,
+                                                                                 {k_: v_ for k_, v_ in det.items() if k_ in bad or k_ == "distances"}),
+                                  dict(ing, X=X, Y=Y, Z=Z, fn=name, laws=bad), values=det)
                     if len(ctx.violations) > 4:
                         return
-            if it < ctx.n(12, 40) and max(len(X), len(Y)) <= 40:
+            if len(hs_cases) < 2 * ctx.n(20, 60) and max(len(X), len(Y)) <= 40:
                 hs_cases.append(["bn", X, Y]); hs_cases.append(["ws", X, Y])
     # every hash seed: same values in fresh interpreters
     seeds = [0, 1, 7] if not ctx.thorough else list(range(12))
@@ -228,16 +325,25 @@ def large_sizes(ctx):
             if max(len(case["dgm1"]), len(case["dgm2"])) >= 100:
                 ctx.count("certified_pairs_100+_points")
             code = float(bn(A(case["dgm1"]), A(case["dgm2"])))
-            ok = math.isfinite(code) and Fraction(code) == v
+            ok = bn_is(code, v, case)
             ctx.test("bn.value_is_certified_optimum", ok)
             if not ok:
                 ctx.violation("bottleneck value %r differs from the certified min-max matching cost %s" % (code, v),
                               {"X": case["dgm1"], "Y": case["dgm2"], "Z": [], "fn": "bn", "laws": ["value_is_certified_optimum"],
                                "certified": str(v)})
                 return
+            if not (math.isfinite(code) and Fraction(code) == v) and not ctx.counters.get("bn.value_not_bit_exact"):
+                # lattice/half/dyadic inputs: the code's float arithmetic is exact, so is the model's value — a last-bit
+                # difference is a break of the C01 correspondence, not a failing input of a law
+                ctx.count("bn.value_not_bit_exact")
+                ctx.violation("bottleneck value %r is not bit-identical to the certified min-max matching cost %s on a dyadic input "
+                              "(equal up to rounding; the property holds on this input)" % (code, v),
+                              {"correspondence": "bn(value, large sizes)", "line": "cert.opt", "code": code, "model": str(v),
+                               "X": case["dgm1"], "Y": case["dgm2"], "Z": [], "fn": "bn", "laws": ["value_is_certified_optimum"]},
+                              found_input=False)
             opt = c02.checked(cans, claimed)
             wcode = float(ws(A(case["dgm1"]), A(case["dgm2"])))
-            ok = c02.agree(wcode, opt, c02.scale_of(case))
+            ok = c02.agree(wcode, opt, c02.scale_of(case), case)
             ctx.test("ws.value_is_certified_optimum", ok)
             if not ok:
                 ctx.violation("wasserstein value %r differs from the certified min-sum matching cost %r (optimum of the model's matrix, "
@@ -247,23 +353,74 @@ def large_sizes(ctx):
                 return
 
 
+def bn_is(code, v, case):
+    """verdict: the bottleneck value is the certified optimum up to rounding (1e-9 * largest |coordinate|)"""
+    return math.isfinite(code) and abs(Fraction(code) - v) <= Fraction(TOL * c01.scale_of(case))
+
+
+def eval_certified(name, X, Y):
+    """the law `value_is_certified_optimum` for one pair on the real code -> (holds, code value, certified optimum)"""
+    import warnings
+    case = {"dgm1": X, "dgm2": Y, "mode": "dyadic", "kinds": ["array", "array"]}
+    with warnings.catch_warnings():
+        warnings.simplefilter("ignore")
+        if name == "bn":
+            v, line = c01.truth_for(case)
+            if common.ask([line])[0] is not True:
+                raise common.HarnessError("cert.opt rejected the certificate of the independent oracle")
+            code = float(common.pm("bottleneck").bottleneck(A(X), A(Y)))
+            return bn_is(code, v, case), code, v
+        mat = common.ask(["ws.matrix %s %s" % (common.enc(X), common.enc(Y))])[0]
+        if not (isinstance(mat, list) and len(mat) == 3):
+            raise common.HarnessError("ws.matrix answered %r" % (mat,))
+        line, claimed = c02.certificate(None, [[float(x) for x in row] for row in mat[2]])
+        opt = c02.checked(common.ask([line])[0], claimed)
+        code = float(common.pm("wasserstein").wasserstein(A(X), A(Y)))
+        return c02.agree(code, opt, c02.scale_of(case), case), code, float(opt)
+
+
 def replay(ctx, rep):
     import warnings
     c = rep["case"]
-    bn = common.pm("bottleneck").bottleneck
-    ws = common.pm("wasserstein").wasserstein
-    f = bn if c.get("fn") == "bn" else ws
+    if "X" not in c:
+        print("nothing to re-run on the real code in this replay:", json.dumps(c)[:1500])
+        return True
+    name = "bn" if c.get("fn") == "bn" else "ws"
+    pts = lambda d: [[float(x) for x in p] for p in d]
     with warnings.catch_warnings():
         warnings.simplefilter("ignore")
         if "hashseeds" in c:
             a = hashseed_values([[c["fn"], c["X"], c["Y"]]], c["hashseeds"][0])
             b = hashseed_values([[c["fn"], c["X"], c["Y"]]], c["hashseeds"][1])
             print(a, b); return a == b
-        X, Y, Z = A(c["X"]), A(c["Y"]), A(c["Z"])
-        print("d(X,Y)=%r d(Y,X)=%r d(Y,Z)=%r d(X,Z)=%r" % (f(X, Y), f(Y, X), f(Y, Z), f(X, Z)))
-        print("laws reported failing:", c.get("laws"), "- re-run ./check.py C07 with VERIF_SEED=%s for the full evaluation" % rep.get("seed"))
-    before = len(ctx.violations)
-    return False if c.get("laws") else before == len(ctx.violations)
+        X, Y, Z = pts(c["X"]), pts(c["Y"]), pts(c.get("Z", []))
+        if c.get("laws") == ["value_is_certified_optimum"]:
+            ok, code, v = eval_certified(name, X, Y)
+            print("code value %r, certified optimum %s" % (code, v))
+            return ok
+        scale = max(common.maxabs(X), common.maxabs(Y), common.maxabs(Z), 1e-300)
+        if "perm_seed" in c:
+            ing = {k: c[k] for k in ("perm_seed", "diag", "t", "lam", "eforms", "aslist") if k in c}
+            ing["diag"] = [float(x) for x in ing["diag"]]
+            rounds = [ing]
+        else:
+            # a record written before the random ingredients were stored (or by hand): the laws are re-evaluated with
+            # several fresh draws (t and lam from the record where present)
+            import random
+            rr = random.Random(0)
+            rounds = []
+            for _ in range(5):
+                ing = draw_ingredients(rr, X, Y, Z, scale)
+                ing.update({k: float(c[k]) for k in ("t", "lam") if k in c})
+                rounds.append(ing)
+        failing = []
+        for ing in rounds:
+            det = {}
+            bad = eval_laws(name, X, Y, Z, ing, None, det)
+            print("values:", det)
+            failing += [b for b in bad if b not in failing]
+        print("laws recorded as failing:", c.get("laws"), "- failing now:", failing or "none")
+        return not failing
 
 
 MANIFEST = {
@@ -277,7 +434,9 @@ MANIFEST = {
             "a 1-Lipschitz diagonal cost, then instantiated with (L-inf,(d-b)/2) and (Euclid,(d-b)/sqrt2) over the reals, and finally composed "
             "with the C01/C02 main theorems (Props/C07Model.lean) into EVERY law of the statement about what the MODELS of persim.bottleneck / "
             "persim.wasserstein return, for lists of raw points (non-finite deaths allowed) and any oracles/solvers honouring their contracts "
-            "(two different ones where two runs occur, so across hash seeds): symmetry, triangle, non-negativity, reordering of the inputs "
+            "(two different ones where two runs occur, so across hash seeds) — under the hypothesis `ProperDgm` (birth <= death for every finite "
+            "point) for all bottleneck laws and for the Wasserstein laws nonneg / reorder_zero / triangle (middle diagram) / bn_le_ws, which is "
+            "necessary: the code returns -0.5 (bottleneck) and -1.414 (Wasserstein) for [(1,0)] against itself: symmetry, triangle, non-negativity, reordering of the inputs "
             "(List.Perm) leaves the value unchanged and d(X, perm X) = 0, a diagonal point inserted anywhere in either diagram, translation "
             "along the diagonal, scaling, the value against a side without finite points, bottleneck <= Wasserstein. That the code's values ARE "
             "the specification values is C01/C02; both correspondences are repeated here on related and independent pairs of exactly m+n "
@@ -287,8 +446,11 @@ MANIFEST = {
             "offset, tiny spread' triples, under several hash seeds.",
     "note": "Trusted: Lean kernel + Mathlib (propext/Classical.choice/Quot.sound); C01/C02 for 'code value = specification value' "
             "(external solvers hopcroftkarp / scipy LSA are contracts certified per run there; re-certified here at the large sizes); float "
-            "rounding is outside the theorems ([T] law stream with stated tolerances: 1e-9*largest |coordinate| for bottleneck, times the number "
-            "of points + 1 for Wasserstein).",
+            "rounding is outside the theorems ([T] law stream with stated tolerances: min(1e-9*largest |coordinate|*k, 1e-9*|value| + 32 eps*largest "
+            "|coordinate|*k), k = 1 for bottleneck, the number of points + 1 for Wasserstein).  Domain: diagrams with birth <= death "
+            "(`ProperDgm` in Props/C07Model.lean, see ASSUMPTIONS); the code does not reject points below the diagonal and several laws are "
+            "false there.  A violation record stores the random ingredients of the law evaluation (permutation seed, diagonal points, shift, "
+            "factor, empty-diagram forms) and `replay` re-evaluates every law through the same function `eval_laws`.",
     "technique": "Lean 4 theorems about the matching specification, composed with the C01/C02 model theorems + laws and certified optima "
                  "replayed on the real code at large sizes",
 }
